@@ -28,7 +28,7 @@ def check(run):
     run.oblige("build:harness", binp is not None, err or "")
     if binp is None:
         return
-    n = 3000 if run.tier == "quick" else 60000
+    n = 8000 if run.tier == "quick" else 60000
     cases = urlcorr.wpt_cases()[:: (3 if run.tier == "quick" else 1)] + urlcorr.gen_cases(run.rng, n, hist_frac=0.6, utf8_only=True)
     res = urlcorr.explore(run, binp, cases, with_spec=False, types=("seqagg",))
     if res is None:
